@@ -80,6 +80,8 @@ class Ent:
             elif self.mode == "zeros":
                 pool = np.array([0, 0, 0, 1, 1, -1, 2, 1j, 0.5 - 0.5j])
                 a = pool[rng.integers(0, len(pool), size=shape)]
+            elif self.mode == "fortran":  # complex entries stored Fortran-ordered (what .T / .conj().T views of C-ordered arrays look like)
+                a = np.asfortranarray(rnd(rng, shape, "complex"))
             elif self.mode == "mixed-dtype":
                 # a family typed in by hand: operator 0 has integer entries (int64), operator 1 real ones (float64), the others complex
                 k = name[-1]
